@@ -16,6 +16,7 @@ Fixpoint tok_ops (fuel : nat) (ops : list N) (s : tsys) (n : N) : args :=
                end
         | 3 => (2, drop_token x s, n)
         | 4 => (2, drop_fut x s, n)
+        | 6 => (2, drop_token x s, n)      (* the connection task that owned token x is dropped; op 5 (token moved into Token::run) changes nothing *)
         | _ => (2, s, n)
         end in
       ([len (live s'); ready] ++ map (fun i => match find (fun e => fst e =? i) (wakes s') with Some e => snd e | None => 0 end)
